@@ -3,6 +3,7 @@
 package quicklz
 
 import (
+	"github.com/douban/gobeansdb/cmem"
 	vrt "github.com/douban/gobeansdb/zzvrt"
 )
 
@@ -50,4 +51,103 @@ func VH_C10_K2_go_safe() {
 	} else {
 		vrt.Reach("rejected")
 	}
+}
+
+// cbytes copies b into C-allocated memory of exactly len(b) bytes (an exact-size object both for
+// the engine and, natively, for AddressSanitizer's red zones).
+func cbytes(b []byte) cmem.CArray {
+	var a cmem.CArray
+	vrt.Assume(a.Alloc(len(b)))
+	copy(a.Body, b)
+	return a
+}
+
+// C10-K3: the C implementation (quicklz.c, executed from the LLVM IR of the current source)
+// and the Go implementation decompress each other's output to the original.
+// regime 0: inputs of 1..10 bytes, every byte symbolic (neither compressor enters its match
+// loop); regime 1: 11..14 bytes, every byte symbolic, compressed by C only (the C match loop runs
+// for 1..4 positions; the hash table is a sparse region with solver-decided aliasing; the Go
+// compressor's 4096-way table index is outside reach for free bytes); regime 2: repetitive
+// concrete bodies of 11..64 bytes with a symbolic 2-byte tail, both directions (matches are
+// found and emitted by both compressors).
+func VH_C10_K3_cross() {
+	vrt.QlzReal()
+	vrt.KnownMemError("F22", "qlz_decompress: read")
+	var src []byte
+	goToo := true
+	switch vrt.Choice("regime", 3) {
+	case 0:
+		src = vrt.Bytes("b", 1+vrt.Choice("len", 10))
+	case 1:
+		src = vrt.Bytes("b", 11+vrt.Choice("len", tiered(4, 6)))
+		goToo = false
+	default:
+		n := []int{11, 12, 16, 40, 64}[vrt.Choice("biglen", 5)]
+		src = make([]byte, n)
+		for i := range src {
+			src[i] = byte("abcabcab"[i%8])
+		}
+		tail := vrt.Bytes("tail", 2)
+		src[n-1], src[n-2] = tail[0], tail[1]
+	}
+	n := len(src)
+	orig := append([]byte(nil), src...)
+	cc, ok := CCompress(src)
+	vrt.Assume(ok)
+	c := cc.Body
+	vrt.Assert("c-header-sizes", vrt.All(SizeCompressed(c) == len(c), SizeDecompressed(c) == n))
+	vrt.Assert("c-compress-leaves-source", vrt.BytesEq(src, orig))
+	d := Decompress(c)
+	vrt.Assert("go-decompresses-c", len(d) == n && vrt.BytesEq(d, orig))
+	cexact := cbytes(c) // as read back from a data file: an object of exactly the stream's length
+	cc.Free()
+	d2, err := CDecompressSafe(cexact.Body)
+	vrt.Assert("c-decompresses-c", err == nil && len(d2.Body) == n && vrt.BytesEq(d2.Body, orig))
+	d2.Free()
+	cexact.Free()
+	if goToo {
+		g := cbytes(Compress(orig, 3))
+		d3, err := CDecompressSafe(g.Body)
+		vrt.Assert("c-decompresses-go", err == nil && len(d3.Body) == n && vrt.BytesEq(d3.Body, orig))
+		d3.Free()
+		g.Free()
+	}
+}
+
+// C10-K4: CDecompressSafe on arbitrary bytes: no access of the real C decompressor leaves the
+// source, destination or scratch object (engine-detected; natively: AddressSanitizer), no panic
+// escapes, and a successful result has the length announced by the header.
+func VH_C10_K4_c_safe() {
+	vrt.QlzReal()
+	vrt.KnownMemError("F22", "qlz_decompress: read")
+	vrt.AllocLimit(1 << 16)
+	n := 9 + vrt.Choice("extra", tiered(5, 8)) // 9..13 (thorough 9..16) input bytes
+	raw := vrt.Bytes("b", n)
+	// bound: 9-byte header form, claimed decompressed size at most 12 (thorough 16) bytes
+	vrt.Assume(raw[0]&2 == 2)
+	vrt.Assume(vrt.All(int(raw[5]) <= tiered(12, 16), raw[6] == 0, raw[7] == 0, raw[8] == 0))
+	src := cbytes(raw)
+	if vrt.Choice("slack", 2) == 1 {
+		// the same stream at the start of a larger allocation: fetches past the end of the stream
+		// stay inside the object, so the accesses behind them (match sources before the
+		// destination, writes) are reached as well
+		src.Free()
+		src = cbytes(append(raw, make([]byte, 16)...))
+		src.Body = src.Body[:n]
+	}
+	d, err := CDecompressSafe(src.Body)
+	if err == nil {
+		vrt.Assert("output-length-is-header", len(d.Body) == int(raw[5]))
+		d.Free()
+	} else {
+		vrt.Reach("rejected")
+	}
+	src.Free()
+}
+
+func tiered(quick, thorough int) int {
+	if vrt.Tier() > 0 {
+		return thorough
+	}
+	return quick
 }
